@@ -86,6 +86,26 @@ def check_rebalance(chk, f, what):
                     # a disjunction/conjunction that is only partly decided on this edge contributes nothing: require a decided atom
                 al = "|".join(re.escape(x) for x in alias)
                 okb = any(t and (re.match(r"^\((\w+) == (%s)->height\)$" % al, k) or re.match(r"^\((%s)->height == (\w+)\)$" % al, k)) for k, t in facts)
+                if not okb:
+                    # the same test spelled the other way round (`oldHeight != parent->height` known false), and the walk's own bound
+                    # established by a dominating test when the exit is a plain `break` block (`if(parent == origParent) break;`)
+                    own_ = []
+                    if blk.get("cond") is not None and len(blk["succ"]) == 2 and tk != "SwitchStmt":
+                        own_ = [(n_, t_) for n_, t_ in q.cond_atoms(f, blk["cond"], blk["succ"][0] == s and blk["succ"][1] != s)]
+                    for a_ in list(fin.dominating_atoms(f, (u, 0))) + own_:
+                        if a_[0] == "case":
+                            continue
+                        cn_ = fin._canon(f, a_[0], a_[1])
+                        if cn_[0] == "val":
+                            continue
+                        if cn_[1] == "==" and any(re.fullmatch(r"(%s)->height" % al, x_) for x_ in (cn_[0], cn_[2])) and \
+                           any(re.fullmatch(r"\w+", x_) for x_ in (cn_[0], cn_[2])):
+                            okb = True
+                        elif cn_[1] == "==" and (cn_[0] in alias or cn_[2] in alias) and (f.node_pos(f.strip(a_[0])) or (None,))[0] in lb:
+                            oth_ = cn_[2] if cn_[0] in alias else cn_[0]
+                            stored_ = any(f.r(st_.lhs) == oth_ and (f.node_pos(st_.node) or (None,))[0] in lb for st_ in q.stores(f))
+                            if re.match(r"^\w+$", oth_) and not stored_:
+                                okb = True
                 if not okb and blk.get("cond") is not None and len(blk["succ"]) == 2 and tk != "SwitchStmt":
                     # the height test kept in a bool local defined inside the walk (`const bool heightKept = oldHeight == parent->height;`)
                     defs_c = q.local_defs(f)
